@@ -515,6 +515,111 @@ fn simple_drive<T>(rt: &tokio::runtime::Runtime, net: &mut Net, fut: impl Future
     ))
 }
 
+/// Play the swarm driver for a put: every `PutRecordTo` is answered Ok and the record CAPTURED (decoded as a node decodes
+/// it: header `ChunkWithPayment`, body `(ProofOfPayment, Chunk)`, filed under the chunk's own address — otherwise it is
+/// refused as a node refuses it); the verification's closest-peers lookup is answered with five holders and their
+/// `GetChunkExistenceProof` answers are computed, as `Node::respond_x_closest_record_proof` does, from the `Chunk` record a
+/// node stores for what was PUT (nothing stored: `ChunkDoesNotExist`). The client's sleeps run on a paused clock that is
+/// advanced whenever nothing is pending. `stored`: record key -> chunk value, in upload order in `order`.
+async fn put_drive<T>(
+    fut: impl Future<Output = T>,
+    net_rx: &mut mpsc::Receiver<NetworkSwarmCmd>,
+    stored: &mut HashMap<RecordKey, Vec<u8>>,
+    order: &mut Vec<RecordKey>,
+    malformed: &mut Vec<String>,
+) -> Option<T> {
+    use ant_protocol::messages::{ChunkProof, Query, QueryResponse, Request, Response};
+    use ant_protocol::storage::{try_deserialize_record, RecordHeader};
+    use ant_protocol::NetworkAddress;
+    tokio::time::pause();
+    tokio::pin!(fut);
+    let holders: Vec<PeerId> = (0..5u8)
+        .map(|i| {
+            let mut sk = [0u8; 32];
+            sk[0] = 0x51;
+            sk[1] = i;
+            PeerId::from(Keypair::ed25519_from_bytes(sk).expect("kp").public())
+        })
+        .collect();
+    let mut out = None;
+    for _ in 0..2_000_000 {
+        if let std::task::Poll::Ready(v) = futures::poll!(&mut fut) {
+            out = Some(v);
+            break;
+        }
+        let mut any = false;
+        for _ in 0..4 {
+            tokio::task::yield_now().await;
+            while let Ok(cmd) = net_rx.try_recv() {
+                any = true;
+                match cmd {
+                    NetworkSwarmCmd::PutRecordTo { record, sender, .. } | NetworkSwarmCmd::PutRecord { record, sender, .. } => {
+                        let kind = RecordHeader::from_record(&record).map(|h| h.kind).ok();
+                        let body = try_deserialize_record::<(ant_evm::ProofOfPayment, Chunk)>(&record).ok();
+                        match (kind, body) {
+                            (Some(RecordKind::ChunkWithPayment), Some((_, chunk))) if chunk.network_address().to_record_key() == record.key => {
+                                if !stored.contains_key(&record.key) {
+                                    order.push(record.key.clone());
+                                }
+                                stored.insert(record.key.clone(), chunk.value().to_vec());
+                            }
+                            (k, _) => malformed.push(format!("{k:?}")),
+                        }
+                        let _ = sender.send(Ok(()));
+                    }
+                    NetworkSwarmCmd::GetClosestPeersToAddressFromNetwork { sender, .. } => {
+                        let _ = sender.send(holders.clone());
+                    }
+                    NetworkSwarmCmd::SendRequest { req, sender: Some(sender), .. } => {
+                        let resp = match req {
+                            Request::Query(Query::GetChunkExistenceProof { key, nonce, .. }) => {
+                                let proof = match stored.get(&key.to_record_key()) {
+                                    Some(v) => {
+                                        let on_node = try_serialize_record(&Chunk::new(Bytes::from(v.clone())), RecordKind::Chunk).expect("ser").to_vec();
+                                        Ok(ChunkProof::new(&on_node, nonce))
+                                    }
+                                    None => Err(ant_protocol::error::Error::ChunkDoesNotExist(key.clone())),
+                                };
+                                Ok(Response::Query(QueryResponse::GetChunkExistenceProof(vec![(key, proof)])))
+                            }
+                            _ => Err(NetworkError::InternalMsgChannelDropped),
+                        };
+                        let _ = sender.send(resp);
+                    }
+                    NetworkSwarmCmd::GetNetworkRecord { sender, .. } => {
+                        let _ = sender.send(Err(GetRecordError::RecordNotFound));
+                    }
+                    _ => {}
+                }
+            }
+        }
+        if !any {
+            // the client is waiting on a timer (the pause before the verification, a back-off)
+            tokio::time::advance(std::time::Duration::from_millis(250)).await;
+        }
+    }
+    let _ = NetworkAddress::from_peer(holders[0]);
+    tokio::time::resume();
+    out
+}
+
+/// a receipt with an entry (a payment proof naming one payee) for every given chunk name
+fn receipt_for(names: &[XorName]) -> autonomi::client::payment::Receipt {
+    let payee = {
+        let mut sk = [0u8; 32];
+        sk[0] = 0x52;
+        PeerId::from(Keypair::ed25519_from_bytes(sk).expect("kp").public())
+    };
+    names
+        .iter()
+        .map(|n| {
+            let mut q = ant_evm::PaymentQuote::zero();
+            q.content = *n;
+            (*n, (ant_evm::ProofOfPayment { peer_quotes: vec![(ant_evm::EncodedPeerId::from(payee), q)] }, ant_evm::AttoTokens::zero()))
+        })
+        .collect()
+}
+
 fn put_error_class(e: &autonomi::client::data::PutError) -> String {
     use autonomi::client::data::PutError;
     match e {
@@ -539,8 +644,9 @@ fn exec_put(rt: &tokio::runtime::Runtime, ws: &[&str], max: usize, out: &mut Out
     if !["private", "public", "cost"].contains(&entry) {
         return Some((raw, "bad-op".into()));
     }
-    // the record source: chunks of encrypt(data) (+ data-map chunk); for len < 3 also those of the zero-padded input
-    let mut source: HashMap<RecordKey, Vec<u8>> = HashMap::new();
+    // The receipt covers every chunk of encrypt(data) and its data-map chunk (for len < 3 those of the zero-padded input:
+    // a silently padded put would upload and read back mangled). The READ SOURCE is what the client itself uploads:
+    // the `PutRecordTo` records captured by `put_drive`, nothing else.
     let mut tab = "-".to_string();
     let mut variants: Vec<Vec<u8>> = vec![data.clone()];
     if len < 3 {
@@ -548,40 +654,49 @@ fn exec_put(rt: &tokio::runtime::Runtime, ws: &[&str], max: usize, out: &mut Out
         p.resize(3, 0);
         variants.push(p);
     }
+    let mut names: Vec<XorName> = vec![];
+    let mut expect_private: Vec<RecordKey> = vec![];
+    let mut expect_public: Vec<RecordKey> = vec![];
     for (i, v) in variants.iter().enumerate() {
         if let Ok(e) = real_encrypt(v) {
             if i == 0 {
                 tab = tab_of(&e);
+                expect_private = e.chunks.iter().map(|c| RecordKey::new(&sha3(c.value()))).collect();
+                expect_public = expect_private.clone();
+                expect_public.push(RecordKey::new(&sha3(e.dm_chunk.value())));
             }
             for c in e.chunks.iter().chain(std::iter::once(&e.dm_chunk)) {
-                source.insert(RecordKey::new(&sha3(c.value())), c.value().to_vec());
+                names.push(XorName(sha3(c.value())));
             }
         }
     }
     let norm = format!("put max={max} len={len} fill={fill} entry={entry} tab={tab}");
+    let mut stored: HashMap<RecordKey, Vec<u8>> = HashMap::new();
+    let mut order: Vec<RecordKey> = vec![];
+    let mut malformed: Vec<String> = vec![];
     let r = catch_unwind(AssertUnwindSafe(|| {
         let mut net = new_net();
         let client = net.client.clone();
         match entry {
-            "private" => match simple_drive(rt, &mut net, client.data_put(Bytes::from(data.clone()), PaymentOption::Receipt(Receipt::new())), &source) {
+            "private" => match rt.block_on(put_drive(client.data_put(Bytes::from(data.clone()), PaymentOption::Receipt(receipt_for(&names))), &mut net.net_rx, &mut stored, &mut order, &mut malformed)) {
                 None => "stuck".to_string(),
                 Some(Err(e)) => format!("err {}", put_error_class(&e)),
-                Some(Ok(dm)) => match simple_drive(rt, &mut net, client.data_get(dm), &source) {
+                Some(Ok(dm)) => match simple_drive(rt, &mut net, client.data_get(dm), &stored) {
                     None => "stuck".into(),
                     Some(Ok(d)) => if d.as_ref() == data.as_slice() { "ok same".into() } else { "ok different".into() },
                     Some(Err(e)) => format!("ok unreadable:{}", get_error_class(&e)),
                 },
             },
-            "public" => match simple_drive(rt, &mut net, client.data_put_public(Bytes::from(data.clone()), PaymentOption::Receipt(Receipt::new())), &source) {
+            "public" => match rt.block_on(put_drive(client.data_put_public(Bytes::from(data.clone()), PaymentOption::Receipt(receipt_for(&names))), &mut net.net_rx, &mut stored, &mut order, &mut malformed)) {
                 None => "stuck".to_string(),
                 Some(Err(e)) => format!("err {}", put_error_class(&e)),
-                Some(Ok(addr)) => match simple_drive(rt, &mut net, client.data_get_public(addr), &source) {
+                Some(Ok(addr)) => match simple_drive(rt, &mut net, client.data_get_public(addr), &stored) {
                     None => "stuck".into(),
                     Some(Ok(d)) => if d.as_ref() == data.as_slice() { "ok same".into() } else { "ok different".into() },
                     Some(Err(e)) => format!("ok unreadable:{}", get_error_class(&e)),
                 },
             },
-            _ => match simple_drive(rt, &mut net, client.data_cost(Bytes::from(data.clone())), &source) {
+            _ => match simple_drive(rt, &mut net, client.data_cost(Bytes::from(data.clone())), &stored) {
                 None => "stuck".to_string(),
                 Some(Err(CostError::SelfEncryption(_))) => "err selfenc".into(),
                 Some(Err(e)) => format!("err cost:{}", format!("{e:?}").split(['(', ' ', '{']).next().unwrap_or("?")),
@@ -589,6 +704,28 @@ fn exec_put(rt: &tokio::runtime::Runtime, ws: &[&str], max: usize, out: &mut Out
             },
         }
     }));
+    // oracle clause uploaded-set: an accepted put has uploaded exactly the chunks of encrypt(data) — the public put also
+    // the data-map chunk —, each as a ChunkWithPayment record under the chunk's own address; a rejected input nothing
+    {
+        let mut got: Vec<Vec<u8>> = order.iter().map(|k| k.to_vec()).collect();
+        got.sort();
+        got.dedup();
+        let mut want: Vec<Vec<u8>> = match (r.as_ref().map(|s| s.starts_with("ok")).unwrap_or(false), entry) {
+            (true, "private") => expect_private.iter().map(|k| k.to_vec()).collect(),
+            (true, "public") => expect_public.iter().map(|k| k.to_vec()).collect(),
+            _ => vec![],
+        };
+        want.sort();
+        want.dedup();
+        if got != want || !malformed.is_empty() {
+            out.oracle_fail(
+                "uploaded-set",
+                &norm,
+                &format!("the `{entry}` put uploaded {} distinct chunk records ({} malformed), encrypt(data) gives {} to upload", got.len(), malformed.len(), want.len()),
+            );
+        }
+        out.count(&format!("put-uploaded:{}", if got.is_empty() { "none" } else if got.len() <= 4 { "3-4" } else { "5+" }));
+    }
     let res = r.unwrap_or_else(|_| "panic".into());
     // oracle: too small => an error on every entry point; otherwise what was put reads back byte-identical
     if len < 3 {
